@@ -317,7 +317,7 @@ def _work_cases(job):
         except Exception as e:  # harness bug: never report as success
             import traceback
 
-            out["errors"].append(f"harness error on {case}: {type(e).__name__}: {e} @ {traceback.format_exc().splitlines()[-3:]}")
+            out["errors"].append(f"harness error on {case}: {type(e).__name__}: {e} @ {traceback.format_exc().splitlines()[-30:]}")
             continue
         tot.merge(c.stats)
         out["n"] += 1
